@@ -86,13 +86,32 @@ func c01Depth(in string) eng.Res {
 	p := strings.Split(in, "\x00")
 	var n int
 	fmt.Sscan(p[1], &n)
-	src := strings.Repeat(p[0], n) + strings.Repeat(p[2], n)
+	payload := ""
+	if len(p) > 3 {
+		payload = p[3]
+	}
+	src := strings.Repeat(p[0], n) + payload + strings.Repeat(p[2], n)
 	m, _ := parseMode(src, false)
 	if m == nil {
 		return eng.Bad("nil-tree", "")
 	}
+	if len(p) > 3 {
+		// the payload family also goes through the UTF-16 mode and the value entry point (arrays and maps are values)
+		if m16, _ := parseMode(src, true); m16 == nil {
+			return eng.Bad("nil-tree-utf16", "")
+		}
+		d2parser.ParseValue(src)
+		d2parser.ParseValue(strings.TrimPrefix(src, "a: "))
+	}
 	return eng.OK(fmt.Sprint(len(m.Nodes)), true)
 }
+
+// c01Payloads are the leaf statements placed at every nesting depth 0..c01MaxDepth: one per construct whose parsing
+// reads the current depth or indentation (block strings with and without text on the opening line, comments, multi-line
+// strings) plus plain controls.
+var c01Payloads = []string{"b", "b: c", "b: |md x|", "b: |md x\n  y\n|", "b: |md\n  x\n|", "|md x|", "|`md x`|", "b: \"q\\\n  r\"", "# c\n", "\"\"\"\n c\n\"\"\"\n", "a -> b: |md x|", "b: ${v}", "...@x"}
+
+const c01MaxDepth = 40
 
 // ---- C02 ---------------------------------------------------------------------------------------
 
@@ -378,6 +397,16 @@ func init() {
 					for _, n := range sizes {
 						w.Eval("depth", fmt.Sprintf("%s\x00%d\x00%s", p[0], n, p[1]))
 						w.Eval("depth", fmt.Sprintf("%s\x00%d\x00%s", p[0], n, ""))
+					}
+				}
+			})
+			w.Phase("depth<=40 x payload", func() {
+				openers := [][2]string{{"a: {", "}"}, {"a: {\n", "\n}"}, {"[", "]"}, {"a: [", "]"}, {"a: {b: [", "]}"}, {"{", "}"}, {"a.b: {", "}"}, {"a -> b: {", "}"}}
+				for _, o := range openers {
+					for n := 0; n <= c01MaxDepth; n++ {
+						for _, pl := range c01Payloads {
+							w.Eval("depth", fmt.Sprintf("%s\x00%d\x00%s\x00%s", o[0], n, o[1], pl))
+						}
 					}
 				}
 			})
